@@ -53,6 +53,7 @@ if _want("display"):
     c19.install(lw)
 
 OBS: list = []
+import atexit  # noqa: E402
 _current = [""]
 
 
